@@ -129,6 +129,7 @@ class PairRun:
         self.case, self.req, self.nA, self.nB, self.bits = case, req, nA, nB, bits
         self.vals = [unhex(x) for x in bits]
         self.model = {}        # switch name -> list of bit strings
+        self.warn = (0, 0)
 
     def maxabs(self):
         return max([abs(v) for v in self.vals] + [0.0])
@@ -154,12 +155,20 @@ def run_real(drv, cases, env=None, noscreen=False):
         raise RuntimeError("corr_pair crashed (%d): %s" % (res.returncode, res.stderr[-800:]))
     runs, cur = [], []
     i = 0
+    warn = (0, 0)
     for l in res.stdout.split("\n"):
         if l.startswith("> "):
             cur.append(l[2:])
+        elif l.startswith("< W"):
+            t = l.split()
+            warn = (int(t[2]), int(t[3]))
         elif l.startswith("< V"):
             t = l.split()
             runs.append(PairRun(cases[i], cur, int(t[2]), int(t[3]), t[4:]))
+            # how often the library itself reported a quadrature that did not converge during this call
+            # (type 1: "Failed to converge"; type 2 on-centre: "Failed at second attempt")
+            runs[-1].warn = warn
+            warn = (0, 0)
             cur = []; i += 1
     if len(runs) != len(cases):
         raise RuntimeError("corr_pair answered %d of %d requests" % (len(runs), len(cases)))
